@@ -340,20 +340,22 @@ def read_cgsmiles(pattern):
             #================================================
                 if pattern[eon_b] in symbol_to_order:
                     prev_bond_order = symbol_to_order[pattern[eon_b]]
+                next_close = eon_b
             elif eon_a+1 < len(pattern) and pattern[eon_a+1] in symbol_to_order:
                 prev_bond_order = symbol_to_order[pattern[eon_a+1]]
-            # more than one branch can end at the same position as
-            # in '[#A]([#B]([#C]))[#D]'; each closure resets the anchor
-            # to the next outer one
+                next_close = len(pattern)
             else:
                 next_close = eon_a + 1
-                while next_close < len(pattern) and pattern[next_close] == ')' and branch_anchor:
-                    prev_node = branch_anchor.pop()
-                    branching = len(branch_anchor) > 0
-                    if next_close+1 < len(pattern) and pattern[next_close+1] in symbol_to_order\
-                       and pattern[next_close+2:next_close+3] != '|':
-                        prev_bond_order = symbol_to_order[pattern[next_close+1]]
-                    next_close += 1
+            # more than one branch can end at the same position as
+            # in '[#A]([#B]([#C]))[#D]' or '[#A]([#B]([#C])|2)[#D]';
+            # each closure resets the anchor to the next outer one
+            while next_close < len(pattern) and pattern[next_close] == ')' and branch_anchor:
+                prev_node = branch_anchor.pop()
+                branching = len(branch_anchor) > 0
+                if next_close+1 < len(pattern) and pattern[next_close+1] in symbol_to_order\
+                   and pattern[next_close+2:next_close+3] != '|':
+                    prev_bond_order = symbol_to_order[pattern[next_close+1]]
+                next_close += 1
             # if all branches are done we need to reset the lists
             # when all nested branches are completed
             if len(branch_anchor) == 0:
